@@ -870,9 +870,8 @@ func inBodyIM(p *parser) bool {
 		case a.Pre, a.Listing:
 			if n.FirstChild == nil {
 				// Ignore a newline at the start of a <pre> block.
-				if d != "" && d[0] == '\r' {
-					d = d[1:]
-				}
+				// (The tokenizer has normalized newlines to "\n"; a "\r"
+				// here comes from a character reference and is data.)
 				if d != "" && d[0] == '\n' {
 					d = d[1:]
 				}
@@ -1433,9 +1432,6 @@ func textIM(p *parser) bool {
 		d := p.tok.Data
 		if n := p.oe.top(); n.DataAtom == a.Textarea && n.FirstChild == nil {
 			// Ignore a newline at the start of a <textarea> block.
-			if d != "" && d[0] == '\r' {
-				d = d[1:]
-			}
 			if d != "" && d[0] == '\n' {
 				d = d[1:]
 			}
